@@ -135,6 +135,8 @@ class UniverseInput(CellModifierInput):
     @property
     def _tree_value(self):
         val = self._old_number
+        # the minus sign of "not truncated" can only be held by a negatable identifier
+        val.is_negatable_identifier = True
         # a cell that was never given a universe (e.g. created after reading) is in universe 0
         val.value = self.universe.number if self.universe is not None else 0
         val.is_negative = self.not_truncated
